@@ -120,11 +120,20 @@ func (x *Exec) loopHeader(st *State, fr *Frame, b *ssa.BasicBlock, prev *ssa.Bas
 	if fr.loops[b] {
 		// back edge: invariant must be preserved; path ends
 		if !l.body[prev] {
-			fail("re-entry of cut loop from outside")
+			fail("re-entry of cut loop %d (header block %d) from block %d of %s", l.ordinal, b.Index, prev.Index, fr.fn)
 		}
 		f2 := fr.clone()
 		setPhis(f2, in)
 		evalInvs(st, f2, "preserve", false)
+		if fr.ct != nil {
+			env := x.frameEnv(fr) // body clauses see the iteration's own variable values
+			for k, cl := range fr.ct.bodies[l.ordinal] {
+				x.specMode++
+				t := x.evalClause(st, env, cl)
+				x.specMode--
+				x.oblige(st, fmt.Sprintf("body%d.%d", l.ordinal, k), t, "every iteration: "+cl.text)
+			}
+		}
 		return []Out{{st: st, kind: oCut}}, true
 	}
 	// entry
@@ -134,6 +143,15 @@ func (x *Exec) loopHeader(st *State, fr *Frame, b *ssa.BasicBlock, prev *ssa.Bas
 	fr.preFr = append(fr.preFr, f2)
 	f2.preSt, f2.preFr = fr.preSt, fr.preFr
 	evalInvs(st, f2, "entry", false)
+	if fr.ct != nil && x.dry == 0 {
+		env := x.frameEnv(f2)
+		for k, cl := range fr.ct.entries[l.ordinal] {
+			x.specMode++
+			t := x.evalClause(st, env, cl)
+			x.specMode--
+			x.oblige(st, fmt.Sprintf("atentry%d.%d", l.ordinal, k), t, "when the loop is reached: "+cl.text)
+		}
+	}
 	// write set by dry runs
 	written := map[*Cell]bool{}
 	for round := 0; round < 4; round++ {
@@ -176,7 +194,11 @@ func (x *Exec) loopHeader(st *State, fr *Frame, b *ssa.BasicBlock, prev *ssa.Bas
 	}
 	fr.loops[b] = true
 	x.havocLoop(st, fr, b, nphi, written)
+	st.logMark = len(st.log)
 	evalInvs(st, fr, "assume", true)
+	if nphi == 0 {
+		fr.skipHeader = b
+	}
 	return x.run(st, fr, b, nphi, prev), true
 }
 
@@ -193,6 +215,9 @@ func (x *Exec) runBodyOnce(st *State, fr *Frame, b *ssa.BasicBlock, nphi int, pr
 				panic(r)
 			}
 		}()
+		if nphi == 0 {
+			fr.skipHeader = b
+		}
 		outs = x.run(st, fr, b, nphi, prev)
 	}()
 	return outs
